@@ -680,7 +680,9 @@ class Checker:
                 continue
             if i.is_dir():
                 # '.' + entry in parent + '..' of each subdirectory
-                if i.links == 1 and sb.has_ro("dir_nlink") and refs >= 65000:
+                # dir_nlink: past 65000 links the count is pinned to 1, and it stays 1 when
+                # sub-directories are removed again (kernel ext4_dec_count(); e2fsck pass 4 accepts it)
+                if i.links == 1 and sb.has_ro("dir_nlink") and refs >= 2:
                     continue
                 if refs != i.links:
                     # root: '.' and '..' both point to itself and there is no parent entry
